@@ -104,6 +104,11 @@ func runOne(t *testing.T, def *CheckDef, tier string, seed int64, tape *Tape, ke
 	runtime.GC()
 	old := debug.SetGCPercent(-1)
 	defer debug.SetGCPercent(old)
+	// ... except as a safety net: a run that has piled up this much garbage is
+	// collected anyway (sixteen workers of a gigabyte each starve the machine;
+	// such a run may replay with a different order of simultaneously runnable
+	// goroutines, which the replay statistics show)
+	debug.SetMemoryLimit(int64(envInt("SIM_MEM_LIMIT_MB", 1200)) << 20)
 	func() {
 		defer func() {
 			if rec := recover(); rec != nil {
